@@ -37,13 +37,68 @@ def getters(ctx, art, cov):
         shutil.rmtree(d, ignore_errors=True)
 
 
+def gen_sub_definitions(ctx, art, cov):
+    """generated sub-routine definitions whose bodies need hi / pkt (they read ISA registers and aliases) and whose
+    parameter names contain the letters of those identifiers: the prologue must declare what the body mentions"""
+    from .. import tvcheck, artefacts
+    from ..front import cast as C
+    S32, U32 = C.T(True, 32), C.T(False, 32)
+    rs = C.reg("R", "s")
+    subs = []
+    for name, pname, pt, e in (
+            ("gshift", "shift", S32, C.bin_("+", C.bin_("<<", rs, C.num(1)), C.var("shift"))),
+            ("ghigh", "high", S32, C.bin_("-", rs, C.var("high"))),
+            ("gpktlen", "pkt_len", U32, C.bin_("+", C.cast(U32, C.alias("LR")), C.var("pkt_len"))),
+            ("gthis", "this", S32, C.bin_("^", C.cast(S32, C.alias("USR")), C.var("this"))),
+            ("gamount", "amount", S32, C.bin_("+", rs, C.var("amount"))),
+            ("gplain", "hi_val", S32, C.bin_("*", C.var("hi_val"), C.num(3)))):
+        subs.append({"name": name, "void": False, "ret": pt, "params": [{"n": pname, "t": pt}], "body": [C.ret(e)]})
+    from .. import corpus_tv
+    steps = [{"op": "addsub", "inst": 0, "name": sd["name"], "ret": C.ctype(sd["ret"]),
+              "params": ["HexInsnPktBundle *bundle"] + ["%s %s" % (C.ctype(q["t"]), q["n"]) for q in sd["params"]],
+              "body": C.program_text(sd["body"])} for sd in subs]
+    res = impl.run_jobs([{"id": "gensubs", "steps": steps}])["gensubs"]["res"]
+    defs, errors = {}, {}
+    for sd, r in zip(subs, res):
+        if r.get("ok"):
+            defs[sd["name"]] = r
+        else:
+            errors[sd["name"]] = r
+    tab, evs, errs = corpus_tv.il_subs_table(defs)
+    errors.update(errs)
+    c_subs = {sd["name"]: {"params": [{"n": q["n"], "t": q["t"], "kind": "val"} for q in sd["params"]], "ret": sd["ret"], "void": False,
+                           "body": sd["body"]} for sd in subs}
+    mini = artefacts.Artefacts()
+    mini.il_subs, mini.c_subs = tab, c_subs
+    for sdef in subs:
+        n = sdef["name"]
+        if n not in tab:
+            continue
+        regs, imms = C.resources(sdef["body"])
+        mini.cases.append({"id": "gensub:" + n, "src": {"kind": "sub", "body": sdef["body"], "params": c_subs[n]["params"], "void": False, "ret": sdef["ret"]},
+                           "regs": regs, "imms": imms, "obs": [{"fmt": "DEF", "term": tab[n]["body"], "events": evs[n], "ambient": []}],
+                           "cmpvars": [], "fam": "std", "gk": [], "nin": 1, "tags": ["sub"], "text": n, "attr_body": sdef["body"], "noped": False})
+    if mini.cases:
+        st, reps = artefacts.run_static(mini)
+        for r in reps:
+            v = r.get("emitc", "")
+            if v and not v.startswith("own"):
+                ctx.violation("generated sub-routine definition is not a well-formed body [%s]: %s" % (r["id"], v), {"kind": "gen-sub-emitc", "report": r})
+        cov["generated_sub_definitions"] = len(mini.cases)
+
+
+def extra_checks(ctx, art, cov):
+    getters(ctx, art, cov)
+    gen_sub_definitions(ctx, art, cov)
+
+
 def run(ctx):
     return staticprop.run_static_property(
         ctx, "emitc", "emitted text is not a well-formed body",
         "the emitted-text reader must accept the text (statement forms, balanced parentheses, final return) and the EmitC state machine "
         "checks declared-once / declared-before-use / valid identifiers / known callees; hi and pkt are in scope only if the needs-hi / "
         "needs-pkt flag is set (sub-routine bodies: only if the prologue declares them); getter names of all bundled instructions via Meta.tla",
-        select=lambda v: not v.startswith("own"), extra=getters,
+        select=lambda v: not v.startswith("own"), extra=extra_checks,
         gen=(("Gen_C02.tla", 8), ("Gen_C05.tla", 2), ("Gen_C10.tla", 2), ("Gen_C07.tla", 1), ("Gen_C06.tla", 1)))
 
 
